@@ -23,8 +23,11 @@ static int nnodes;
 static char cwd[PATH_MAX] = "/";
 static mode_t cur_umask = 022;
 static rng_t frng;
+static uint64_t fs_seed;
+static char last_temp[PATH_MAX];
 static struct { int node; int used; } fsfd[FS_FD_MAX - FS_FD_BASE];
-static char *ever_names[2048]; static int never;
+#define MAXEVER 16384
+static char *ever_names[MAXEVER]; static int never;
 int simfs_spawns, simfs_tempfiles_created, simfs_tempfile_bad_mode, simfs_tempfile_name_reused, simfs_tempfiles_live;
 int simfs_fopen_calls, simfs_fopen_failed;
 char simfs_last_cmd[512];
@@ -79,12 +82,14 @@ void simfs_reset(uint64_t seed)
     strcpy(cwd, "/");
     cur_umask = 022;
     rng_seed(&frng, seed, 77);
+    fs_seed = seed * 0x9e3779b97f4a7c15ULL + 1;
     simfs_spawns = simfs_tempfiles_created = simfs_tempfile_bad_mode = simfs_tempfile_name_reused = simfs_tempfiles_live = 0;
     simfs_fopen_calls = simfs_fopen_failed = 0;
     simfs_last_cmd[0] = 0;
     open_dirs = 0;
     simenv_exit_called = 0;
     mkstemp_base_mode = 0600;
+    last_temp[0] = 0;
     simfs_add_dir("/");
     simfs_add_dir("/tmp");
 }
@@ -218,6 +223,13 @@ char *sim_getcwd(char *buf, size_t n)
     return buf;
 }
 typedef struct { int idx[MAXNODES]; int n, pos; struct dirent de; } sdir_t;
+static uint64_t dir_order_key(const char *path)
+{
+    uint64_t h = 1469598103934665603ULL ^ fs_seed;
+    for (; *path; path++) { h ^= (unsigned char)*path; h *= 0x100000001b3ULL; }
+    h ^= h >> 29; h *= 0xbf58476d1ce4e5b9ULL; h ^= h >> 32;
+    return h;
+}
 DIR *sim_opendir(const char *path)
 {
     int i;
@@ -237,7 +249,13 @@ DIR *sim_opendir(const char *path)
         if (strchr(p + (pl > 1 ? pl + 1 : 1), '/')) continue;
         d->idx[d->n++] = k;
     }
-    for (int k = d->n - 1; k > 0; k--) { int j = (int)rng_below(&frng, (uint32_t)k + 1), t = d->idx[k]; d->idx[k] = d->idx[j]; d->idx[j] = t; }
+    /* listing order: seeded, but stable for an unchanged directory (as on a real file system) -- a per-run hash of each path */
+    for (int a = 1; a < d->n; a++) {
+        int t = d->idx[a], b = a;
+        uint64_t ht = dir_order_key(nodes[t].path);
+        while (b > 0 && dir_order_key(nodes[d->idx[b - 1]].path) > ht) { d->idx[b] = d->idx[b - 1]; b--; }
+        d->idx[b] = t;
+    }
     open_dirs++;
     return (DIR *)d;
 }
@@ -272,17 +290,23 @@ int sim_mkstemp(char *tmpl)
     }
     for (;;) {
         static const char al[] = "abcdefghijklmnopqrstuvwxyzABCDEFGHIJKLMNOPQRSTUVWXYZ0123456789";
+        int used = 0;
         for (int i = 0; i < 6; i++) tmpl[l - 6 + i] = al[rng_below(&frng, 62)];
-        if (find_node(tmpl) < 0) break;
+        if (find_node(tmpl) >= 0) continue;
+        /* an ideal mkstemp: never hands out a name twice in one run, so a repeated name can only be the caller's doing */
+        norm(tmpl, p);
+        for (int i = 0; i < never && !used; i++) if (!strcmp(ever_names[i], p)) used = 1;
+        if (!used) break;
     }
     norm(tmpl, p);
     { char *slash = strrchr(p, '/'); if (slash && slash != p) { *slash = 0; if (find_node(p) < 0) { errno = ENOENT; return -1; } *slash = '/'; } }
     for (int i = 0; i < never; i++) if (!strcmp(ever_names[i], p)) simfs_tempfile_name_reused++;
-    if (never < 2048) ever_names[never++] = strdup(p);
+    if (never < MAXEVER) ever_names[never++] = strdup(p);
     node = add_node(tmpl, "", 0, mkstemp_base_mode & ~(int)cur_umask, 0);
     if (node >= 0 && (nodes[node].mode & 077)) simfs_tempfile_bad_mode++;      /* readable by others from the moment it exists */
     if (node < 0) { errno = ENOSPC; return -1; }
     nodes[node].is_temp = 1;
+    snprintf(last_temp, sizeof(last_temp), "%s", tmpl);
     for (int i = 0; i < FS_FD_MAX - FS_FD_BASE; i++) if (!fsfd[i].used) { fsfd[i].used = 1; fsfd[i].node = node; fd = i + FS_FD_BASE; break; }
     if (fd < 0) { errno = EMFILE; return -1; }
     simfs_tempfiles_created++;
@@ -298,6 +322,8 @@ int sim_fchmod(int fd, mode_t m)
     tr_printf("fchmod fd%d %o", fd, (unsigned)m);
     return 0;
 }
+const char *simfs_last_temp_name(void) { return last_temp; }
+int simfs_is_temp(const char *path) { int i = find_node(path); return i >= 0 && nodes[i].is_temp; }
 void simfs_tempfile_check_at_return(int fd)
 {
     if (fd < 0) return;
